@@ -914,6 +914,75 @@ func shortUnlimited(res *vkit.Result, trials int) {
 	}
 }
 
+// unlimitedFirstUse: "the number left is zero only if no token remains, and negative while the
+// total is unknown". A fresh unlimited schedule with a 1 h window is started — lazily by its
+// first Next, or by Start — while other callers poll Left (what every instance does before each
+// shot). Nobody may ever see Left() == 0 or a refused token: the window is an hour long.
+func unlimitedFirstUse(res *vkit.Result, rounds int) {
+	for _, how := range []string{"first-next", "start"} {
+		c := map[string]any{"tree": "unlimited(1h)", "started_by": how, "pollers": 6}
+		bad := ""
+		polls := int64(0)
+		for r := 0; r < rounds && bad == ""; r++ {
+			s := schedule.NewUnlimited(time.Hour)
+			var stop atomic.Bool
+			var mu sync.Mutex
+			var wg sync.WaitGroup
+			begin := make(chan struct{})
+			for g := 0; g < 6; g++ {
+				wg.Add(1)
+				go func() {
+					defer wg.Done()
+					<-begin
+					n := int64(0)
+					for !stop.Load() {
+						n++
+						if l := s.Left(); l >= 0 {
+							mu.Lock()
+							if bad == "" {
+								bad = fmt.Sprintf("Left() = %d while the schedule was being started (round %d): its window of 1 h has only just begun", l, r)
+							}
+							mu.Unlock()
+							break
+						}
+					}
+					atomic.AddInt64(&polls, n)
+				}()
+			}
+			wg.Add(1)
+			go func() {
+				defer wg.Done()
+				<-begin
+				for i := 0; i < r%50; i++ {
+					runtime.Gosched()
+				}
+				if how == "start" {
+					s.Start(time.Now())
+				}
+				if _, ok := s.Next(); !ok {
+					mu.Lock()
+					if bad == "" {
+						bad = fmt.Sprintf("the first Next was refused (round %d)", r)
+					}
+					mu.Unlock()
+				}
+				for i := 0; i < 20; i++ {
+					runtime.Gosched()
+				}
+				stop.Store(true)
+			}()
+			close(begin)
+			wg.Wait()
+			res.Count("unlimited_first_use_rounds", 1)
+		}
+		res.Count("unlimited_first_use_polls", polls)
+		if bad != "" {
+			res.Violate("C02/unlimited-first-use/left-zero", bad, c)
+		}
+		res.Eval(vkit.JSON(c), true)
+	}
+}
+
 func main() {
 	if vkit.IsChild() {
 		child()
@@ -983,6 +1052,7 @@ func main() {
 	wg.Wait()
 	vkit.CheckRaceLog(res, "C02")
 	shortUnlimited(res, vkit.N(400, 8000))
+	unlimitedFirstUse(res, vkit.N(3000, 30000))
 	if res.Counter("hook_hits/next:after-runlock") == 0 || res.Counter("hook_hits/left:after-runlock") == 0 || res.Counter("controlled_interleavings") < 50 {
 		res.Inconclusive(true, "yield hook not reached or too few controlled interleavings (is the verif tag on?)")
 	}
